@@ -93,7 +93,12 @@ def stepLine2 (u : Unit) (line : String) : Unit × String :=
     match words premainLine with
     | _ :: outcap :: blkcap :: toks => ((), runSeq outcap blkcap toks)
     | _ => ((), "bad-op")
-  | ["sizes"] => ((), " ".intercalate (widths.map toString))
+  | ["sizes"] =>
+    -- round 3b: compared are the widths that the public signatures fix (return type of `gstuffing_v`, `size_t`,
+    -- `iov_len`, return type and `size` parameter of `gstuffing_v1` = entries 0, 1, 2, 7, 8 of `widths`); the
+    -- widths of the sline counters, `sizeof(gstuff_context)` and the legacy crc/state members are not fixed by
+    -- the property (the harness reports them as a tag)
+    ((), " ".intercalate (([0, 1, 2, 7, 8].map fun i => widths.getD i 0).map toString))
   | "seq" :: outcap :: blkcap :: toks => ((), runSeq outcap blkcap toks)
   | ["long", codec, kind, n, seed] =>
     let r : Option String := do
